@@ -14,6 +14,7 @@ import (
 	"unicode/utf8"
 
 	pb "github.com/fullstorydev/grpchan/grpchantesting"
+	"github.com/fullstorydev/grpchan/httpgrpc"
 	"google.golang.org/grpc"
 
 	"google.golang.org/grpc/metadata"
@@ -33,6 +34,67 @@ type c02Case struct {
 	// GC: the final RecvMsg is the caller's last use of the stream (as in a generated
 	// CloseAndRecv) and the garbage collector runs while that call is blocked.
 	GC bool `json:",omitempty"`
+	// Undecodable: the handler succeeds, but the caller cannot take its response: it receives into a message
+	// of another type (in-process: the copy is refused) - "a response that cannot be decoded is always
+	// reported as an error". WrongKind says which RPC kind is used.
+	Undecodable bool   `json:",omitempty"`
+	WrongKind   string `json:",omitempty"`
+}
+
+// propC02Undecodable: in-process call whose response cannot be delivered into what the caller supplied.
+func propC02Undecodable(c c02Case, o *Outcome) *Outcome {
+	o.class("undecodable-response/kind=%s", c.WrongKind)
+	o.NonTrivial = true
+	svc := &Service{
+		Unary: func(ctx context.Context, req *pb.Message) (*pb.Message, error) {
+			return &pb.Message{Count: 5, Payload: []byte("resp")}, nil
+		},
+		Stream: func(kind string, stream grpc.ServerStream) error {
+			for stream.RecvMsg(new(pb.Message)) == nil {
+				if !clientStreaming(kind) {
+					break
+				}
+			}
+			return stream.SendMsg(&pb.Message{Count: 5, Payload: []byte("resp")})
+		},
+	}
+	car := newCarrier(cInproc, newServiceDesc(), svc, carrierOpts{})
+	defer car.Close()
+	ctx, cancel := context.WithCancel(context.Background())
+	defer cancel()
+	var err error
+	wrong := &httpgrpc.HttpTrailer{Code: 42}
+	stall := guard("call", func() {
+		defer func() {
+			if p := recover(); p != nil {
+				err = fmt.Errorf("panic: %v", p)
+				o.Fail = fmt.Sprintf("in-process %s call receiving into a message of another type panicked: %v", c.WrongKind, p)
+			}
+		}()
+		if c.WrongKind == kUnary {
+			err = car.Conn.Invoke(ctx, mUnary, &pb.Message{}, wrong)
+			return
+		}
+		var cs grpc.ClientStream
+		cs, err = car.Conn.NewStream(ctx, streamDescOf(c.WrongKind), methodOf(c.WrongKind))
+		if err != nil {
+			return
+		}
+		cs.SendMsg(&pb.Message{})
+		cs.CloseSend()
+		err = cs.RecvMsg(wrong)
+	})
+	if stall != "" {
+		return o.failf("undecodable response: %s", stall)
+	}
+	o.Observed = map[string]interface{}{"err": errStr(err)}
+	if o.Fail != "" {
+		return o
+	}
+	if err == nil || err == io.EOF {
+		return o.failf("in-process %s call: the handler's response (a grpchantesting.Message) cannot be delivered into the caller's httpgrpc.HttpTrailer, yet the receive reported %v (success); caller's message: %v", c.WrongKind, err, wrong)
+	}
+	return o
 }
 
 //go:noinline
@@ -273,6 +335,9 @@ func propC02(c c02Case) *Outcome {
 	if c.GC {
 		return propC02GC(c, o)
 	}
+	if c.Undecodable {
+		return propC02Undecodable(c, o)
+	}
 	s := &c.S
 	e := modelScript(s)
 	o.class("carrier=%s", c.Carrier)
@@ -396,10 +461,14 @@ func genC02(t *rapid.T) c02Case {
 		c.S.HOps = nil
 		return c
 	}
+	if rapid.IntRange(0, 39).Draw(t, "undecodable") == 0 {
+		return c02Case{Carrier: cInproc, Undecodable: true, WrongKind: rapid.SampledFrom(allKinds).Draw(t, "wrongkind")}
+	}
 	if rapid.IntRange(0, 9).Draw(t, "fault") == 0 {
-		c := c02Case{Carrier: rapid.SampledFrom([]string{cHTTP, cHTTPMux}).Draw(t, "carrier"),
+		c := c02Case{Carrier: rapid.SampledFrom([]string{cHTTP, cHTTPMux, cHTTPPer}).Draw(t, "carrier"),
 			S: genScript(t, scriptGenOpts{MaxMsg: 300, MDKeys: 1, FewOps: true, NoEarly: true, PlainStatus: true})}
 		c.S.Final = ErrSpec{Kind: "nil"}
+		c.S.Chunked = false // the recorded reply's last byte is the body's last byte
 		if c.S.Kind == kClientStream {
 			c.S.HOps = []HOp{{Op: "send", Msg: 0}}
 		}
@@ -421,6 +490,7 @@ func init() { registerReplay("C02", propC02) }
 const c02Rule = "rapid-generated cooperative scripts (kind x request list x handler op order x final outcome: nil/status incl. out-of-range codes, odd messages, details/plain error/context errors/io.EOF) on inproc, httpgrpc.Server and HandleServices; " +
 	"oracle = model of the handler's returned status (cross-checked on grpc-go over bufconn when the SUT deviates) in both directions (equality; success implies handler success and complete response); " +
 	"plus GC cases (a collection cycle while the caller's last RecvMsg on the stream is blocked must not change the outcome) and fault sequences: successful HTTP replies cut short at evenly spaced byte offsets (every offset in the thorough tier) with clean and abrupt connection ends - never success, delivered messages an intact prefix; " +
+	"also generated since the seeded rounds: wrapped context and status errors (%w), errors carrying an OK status, handler metadata named like the protocol's own status headers (Spoof: the outcome must not change), payload sizes around powers of two; " +
 	"non-trivial = fault case, or non-nil outcome with a message outside [A-Za-z ]*, or details, or an error after >=1 response; distinct by case hash"
 
 func TestC02(t *testing.T) {
